@@ -136,3 +136,18 @@ impl AtomicEpoch {
         }
     }
 }
+
+#[cfg(feature = "circ_verif")]
+impl AtomicEpoch {
+    pub(crate) fn verif_set(&self, value: usize) {
+        self.data.store(value << 1, Ordering::SeqCst)
+    }
+
+    pub(crate) fn verif_peek(&self) -> usize {
+        self.data.load(Ordering::Relaxed)
+    }
+
+    pub(crate) fn verif_addr(&self) -> usize {
+        &self.data as *const AtomicUsize as usize
+    }
+}
